@@ -1643,11 +1643,33 @@ def _sig_dotted(e):
     return None
 
 
+def collections_counter(it):
+    import collections
+    return collections.Counter(it)
+
+
 class SigTables:
     def __init__(self, repo):
         self.mods = _sig_scan(repo)
         self.keys = [(m, c) for m in self.mods for c in self.mods[m]['classes']]
         self._mro, self._meth = {}, {}
+        # module of every function definition; module-level names bound exactly once, by a plain assignment at top level
+        self.fn_mod, self.consts = {}, {}
+        for m, info in self.mods.items():
+            for n in ast.walk(info['tree']):
+                if isinstance(n, (ast.FunctionDef, ast.AsyncFunctionDef)):
+                    self.fn_mod[id(n)] = m
+            bound = collections_counter(x.id for x in ast.walk(info['tree']) if isinstance(x, ast.Name) and isinstance(x.ctx, (ast.Store, ast.Del)))
+            cs = {}
+            for st_ in info['tree'].body:
+                tg, val = None, None
+                if isinstance(st_, ast.Assign) and len(st_.targets) == 1 and isinstance(st_.targets[0], ast.Name):
+                    tg, val = st_.targets[0].id, st_.value
+                elif isinstance(st_, ast.AnnAssign) and isinstance(st_.target, ast.Name) and st_.value is not None:
+                    tg, val = st_.target.id, st_.value
+                if tg is not None and bound[tg] == 1:
+                    cs[tg] = val
+            self.consts[m] = cs
 
     def node(self, key):
         return self.mods[key[0]]['classes'][key[1]]
@@ -1744,11 +1766,14 @@ class SigTables:
         return False, None
 
     # ---- parameters
-    @staticmethod
-    def default_of(d):
-        """(tag, payload)"""
+    def default_of(self, d, mod=None):
+        """(tag, payload); a default that names a module-level constant (bound once, at top level) is read as that constant's value"""
         if d is None:
             return ('DReq', None)
+        if isinstance(d, ast.Name) and mod is not None and d.id in self.consts.get(mod, {}):
+            inner = self.consts[mod][d.id]
+            if not isinstance(inner, ast.Name):
+                return self.default_of(inner, None)
         if isinstance(d, ast.Constant):
             if d.value is None:
                 return ('DNone', None)
@@ -1774,15 +1799,16 @@ class SigTables:
     def params(self, fd, skip_first=True):
         """[(name, kind, default)] of a function definition (without self)"""
         a = fd.args
+        mod = self.fn_mod.get(id(fd))
         pos = a.posonlyargs + a.args
         dfl = [None] * (len(pos) - len(a.defaults)) + list(a.defaults)
-        out = [(x.arg, 'PPosOnly' if i < len(a.posonlyargs) else 'PPos', self.default_of(d)) for i, (x, d) in enumerate(zip(pos, dfl))]
+        out = [(x.arg, 'PPosOnly' if i < len(a.posonlyargs) else 'PPos', self.default_of(d, mod)) for i, (x, d) in enumerate(zip(pos, dfl))]
         if skip_first and out:
             out = out[1:]
         if a.vararg:
             out.append((a.vararg.arg, 'PVarPos', ('DReq', None)))
         for x, d in zip(a.kwonlyargs, a.kw_defaults):
-            out.append((x.arg, 'PKwOnly', self.default_of(d)))
+            out.append((x.arg, 'PKwOnly', self.default_of(d, mod)))
         if a.kwarg:
             out.append((a.kwarg.arg, 'PVarKw', ('DReq', None)))
         return out
@@ -2117,9 +2143,12 @@ class SigTables:
                         pairs = list(zip(pos[len(pos) - len(a.defaults):], a.defaults)) + \
                             [(k, d) for k, d in zip(a.kwonlyargs, a.kw_defaults) if d is not None]
                         for arg, d in pairs:
+                            via = None
+                            if isinstance(d, ast.Name) and d.id in self.consts.get(mname, {}):
+                                via, d = d.id, self.consts[mname][d.id]       # a module-level constant used as the default
                             if _sig_mutable_default(d):
                                 out.append(dict(module=mname, qualname='.'.join(prefix + [ch.name]), param=arg.arg,
-                                                source=ast.unparse(d), line=d.lineno, local='<locals>' in '.'.join(prefix)))
+                                                source=ast.unparse(d), line=d.lineno, local='<locals>' in '.'.join(prefix), via=via))
                         visit(ch, prefix + [ch.name + '.<locals>'])
             visit(m['tree'], [])
         return out
